@@ -105,7 +105,9 @@ def gen_case(rng, sb):
             'outer': rng.random() < 0.25 and not named_env,
             # the executable given by name, found through the PATH the task describes for itself (the agent's own PATH has a
             # different program of that name first)
-            'bare': rng.random() < 0.2 and not named_env}
+            'bare': rng.random() < 0.2 and not named_env,
+            # a startup timeout: the exec script reports the start of the task (once, from rank 0) before anything else
+            'startup': rng.choice([0, 0, 0, 0, 30])}
 
 
 def exe_of(sb, case):
@@ -122,6 +124,7 @@ def build(rp, sb, case, uid):
          'post_launch': ['%s %d %d' % (sb.cmd, i, codes[i]) for i in case['post_launch']],
          'gpus_per_rank': case['gpr'], 'gpu_type': case['gpu_type']}
     if case['omp']:    d.update({'threading_type': 'OpenMP', 'cores_per_rank': case['omp']})
+    if case.get('startup'): d['startup_timeout'] = case['startup']
     for key in ('stdout', 'stderr'):
         v = case[key]
         if v and v.startswith('ABS:'):
@@ -265,6 +268,12 @@ def monitor(sb, case, task, res, pwd):
         if res['rc'] != 1:
             bad.append(('launch:exit-code-after-failing-pre_launch', 'exit code %s' % res['rc']))
         return bad
+    # the start of the task is reported exactly once, by rank 0, and only when a startup timeout is set; it is a
+    # report, not a condition: every rank goes on to its commands and the executable
+    ctrl = open(sb.probe_dir + '/ctrl.log').read().splitlines() if os.path.exists(sb.probe_dir + '/ctrl.log') else []
+    want_ctrl = ['rank=0 %s task_startup_done uid=%s' % (sb.sid, task['uid'])] if case.get('startup') and prel_fail is None else []
+    if ctrl != want_ctrl:
+        bad.append(('exec:startup-report-differs', 'radical-pilot-control was called as %s, described %s' % (ctrl, want_ctrl)))
     if os.path.exists(sb.probe_dir + '/decoy.ran'):
         bad.append(('exec:another-program-than-the-described-one-ran', 'the executable is described as %r with PATH=%r; the program of that name on the '
                     'agent\'s own PATH ran instead' % (exe_of(sb, case), case['env'].get('PATH'))))
@@ -350,6 +359,7 @@ def run(ctx):
         sb  = execlib.Sandbox(root)
         os.environ['PATH'] = '%s/decoy:%s' % (sb.root, os.environ.get('PATH', '/usr/bin:/bin'))      # the agent's own search path
         p   = execlib.make_executor(rp, sb)
+        p.rp_ctrl = sb.ctrl
         pwd = p._pwd
         cases = [dict(c) for c in CORPUS] + [gen_case(rng, sb) for _ in range(ctx.n(140, 5000))]
         for i, case in enumerate(cases):
@@ -469,6 +479,8 @@ CORPUS = [
     _mk(ranks=2, exe_codes=[0, 9], gpr=1, gpu_type='CUDA', gpus=[[0], [1, 2]]),
     _mk(bare=True, args=['a']),                                    # executable by name, found through the task's own PATH
     _mk(bare=True, ranks=2, exe_codes=[0, 3]),
+    _mk(startup=30, ranks=3, exe_codes=[0, 0, 5], args=['x']),     # a startup timeout on a task of several ranks
+    _mk(startup=30),
 ]
 for c in CORPUS:
     c['codes'] = [tuple(x) for x in c['codes']]
@@ -483,6 +495,7 @@ def replay(ctx, data):
         sb = execlib.Sandbox(root)
         os.environ['PATH'] = '%s/decoy:%s' % (sb.root, os.environ.get('PATH', '/usr/bin:/bin'))
         p  = execlib.make_executor(rp, sb)
+        p.rp_ctrl = sb.ctrl
         task, launcher, res = one(rp, sb, p, case, 'task.000000')
         bad = monitor(sb, case, task, res, p._pwd)
         print('rc', res['rc'], 'log', res['log']); print((res['launch_out'] or '')[-500:]); print(bad)
